@@ -362,6 +362,46 @@ func partC09(a *hcli.Args, rep *report.Report, univName string, u *schema.Univer
 		}
 		s5.Class("encoded:patch-of-record-with-includes")
 	}
+	// Equal values have identical bytes: a nil and an empty collection / byte string are the same value
+	{
+		sn := rep.S("nil-vs-empty")
+		sn.Bounds = "every wrapper x every alphabet value holding an empty array, map or byte string in a field x that field nil vs empty x 5 formats: identical bytes (the values are Equal)"
+		for wi, w := range u.Wrappers {
+			if !a.Mine(wi) {
+				continue
+			}
+			for _, v := range schema.Alphabet(w, true) {
+				swaps := nilEmptySwaps(v)
+				if len(swaps) == 0 {
+					continue
+				}
+				ptr, err := goValue(v)
+				if err != nil {
+					report.Internal("bridge: %v", err)
+				}
+				sn.States++
+				for _, m := range swaps {
+					mp, err := goValue(m)
+					if err != nil {
+						report.Internal("bridge: %v", err)
+					}
+					for _, f := range Formats {
+						o1, e1 := encode(f, asMarshaler(ptr))
+						o2, e2 := encode(f, asMarshaler(mp))
+						sn.Evaluations++
+						sn.Transitions++
+						sn.Traces++
+						if (e1 == nil) != (e2 == nil) || string(o1) != string(o2) {
+							rep.Fail(fmt.Sprintf("%s det nil-vs-empty %s %s", a.Gen, f, leaf(v.Dev)), fmt.Sprintf("type %s: %s encodes as %q (%v), the same value with the empty collection nil / non-nil the other way round as %q (%v)", w.Name, v, o1, e1, o2, e2), nil)
+							sn.Class("fail")
+						} else {
+							sn.Class("ok:" + f)
+						}
+					}
+				}
+			}
+		}
+	}
 	// earlier use of the library: the encoding of a partial update does not depend on the partial updates of the
 	// same record type encoded or decoded before it in this process
 	{
